@@ -142,6 +142,17 @@ def run(chk, repo, tier):
                 flat = nf.subst_value(num, {b: b[2][0] for b in nf.value_atoms(num) if is_app(b, 'int') and isinstance(b[2][0], Poly)})
                 if flat != want:
                     okg, detg = False, f'linspace(..., num={fmt(num)[:120]}); expected ceil(span/step) + 1'
+    if not ng:
+        # no linspace: a grid stepped with np.arange(min, max (+ slack), step) ends where the float steps happen to end - it
+        # covers the union exactly only when the span is a multiple of the step
+        for p in returns(gp):
+            for e in p.events:
+                if e.kind == 'call' and e.data.get('callee') == 'ext:numpy.arange' and len(e.data.get('args', [])) == 3:
+                    st_ = e.data['args'][2]
+                    if any(is_app(x, 'call:radiometry._sampling') for x in nf.value_atoms(st_)):
+                        okg = False
+                        detg = f'grid = arange({", ".join(fmt(x)[:40] for x in e.data["args"])}): it does not end on the largest ' \
+                               f'wavelength of the union unless the span is a multiple of the step'
     chk.ob('C13-f', 'N-formula', fic.key, 'common grid has ceil(span/step) + 1 samples (never coarser than the requested sampling)',
            (okg and ng > 0) if (ng or not okg) else None, detg or f'{ng} grid construction(s)', fic.loc())
 
@@ -152,6 +163,7 @@ def run(chk, repo, tier):
     new_ok = bool(rets)
     keep_ok = False
     two_ok, two_seen = True, False
+    value_ok, value_det = True, ''
 
     def other_is_spectrum(p):
         from ..rules import literals
@@ -192,9 +204,29 @@ def run(chk, repo, tier):
                     ic[0].bound.get('method') == S('method') and ic[0].bound.get('fill_value') == S('fill_value')
                 two_seen = True
                 two_ok = two_ok and ok_i
+                vv = b.get('value')
+                va2 = vv.single_atom() if isinstance(vv, Poly) else None
+                plain = va2 is not None and is_app(va2, 'callv') and \
+                    {nf.vkey(x) for x in va2[2][1:3]} == {nf.vkey(nf.index(r, C(1))), nf.vkey(nf.index(r, C(2)))} if va2 is not None and is_app(va2, 'callv') and len(va2[2]) >= 3 else False
+                if not plain:
+                    value_ok = False
+                    value_det = f'value = {fmt(vv)[:120]}'
     chk.ob('C13-e', 'D-flow', fu.key, 'two spectra: grid and values from _interp_common(self, other, ...)',
            two_ok and two_seen, '', fu.loc())
+    chk.ob('C13-e', 'D-flow', fu.key, 'two spectra: the value is the operation applied to the two interpolated values and nothing else '
+           '(fill values, infinities and NaNs included)', (value_ok and two_seen) if (two_seen or not value_ok) else None, value_det, fu.loc())
     chk.ob('C13-e', 'D-flow', fu.key, 'returns a new Spectrum in the first operand\'s units', new_ok, '', fu.loc())
+    # ndarray (op) Spectrum reaches the reflected method only if numpy defers to the Spectrum
+    pri = False
+    for node in ast.walk(cls.node):
+        if isinstance(node, (ast.Assign, ast.AnnAssign)):
+            for t in (node.targets if isinstance(node, ast.Assign) else [node.target]):
+                nm = t.attr if isinstance(t, ast.Attribute) else t.id if isinstance(t, ast.Name) else None
+                if nm in ('__array_priority__', '__array_ufunc__'):
+                    pri = True
+    chk.ob('C13-a', 'T-operator', SPEC, 'numpy defers to the Spectrum (array * spectrum is one Spectrum, not an array of them)', pri,
+           '__array_priority__ / __array_ufunc__ is set' if pri else 'neither __array_priority__ nor __array_ufunc__ is set: '
+           'ndarray.__mul__ broadcasts over the Spectrum object and __rmul__ is never asked', cls.loc() if hasattr(cls, 'loc') else '')
     chk.ob('C13-e', 'D-flow', fu.key, 'scalar/vector operand: wavelength grid unchanged, ufunc(self.value, other)', keep_ok, '', fu.loc())
 
     # ---------------------------------------------------------------- C13-f
